@@ -1181,7 +1181,8 @@ stringdecl(struct expr *expr)
 	mapkey(&key, expr->u.string.data, expr->u.string.size * expr->type->base->size);
 	entry = mapput(&strings, &key);
 	d = *entry;
-	if (!d) {
+	/* a literal with the same bytes may share the object unless that is aligned for narrower elements */
+	if (!d || d->type->align < expr->type->align) {
 		d = mkdecl("string", DECLOBJECT, expr->type, QUALNONE, LINKNONE);
 		d->value = mkglobal(d);
 		emitdata(d, mkinit(0, expr->type->size, (struct bitfield){0}, expr));
